@@ -83,12 +83,152 @@ impl<K: Eq, V> HashMap<K, V> {
         self.items.iter().map(|(k, v)| (k, v))
     }
 
+    pub fn get_mut<Q: ?Sized>(&mut self, key: &Q) -> Option<&mut V>
+    where
+        K: Borrow<Q>,
+        Q: Eq,
+    {
+        for (k, v) in self.items.iter_mut() {
+            if (*k).borrow() == key {
+                return Some(v);
+            }
+        }
+        None
+    }
+
+    pub fn keys(&self) -> impl Iterator<Item = &K> {
+        self.items.iter().map(|(k, _)| k)
+    }
+
+    pub fn values(&self) -> impl Iterator<Item = &V> {
+        self.items.iter().map(|(_, v)| v)
+    }
+
+    pub fn values_mut(&mut self) -> impl Iterator<Item = &mut V> {
+        self.items.iter_mut().map(|(_, v)| v)
+    }
+
+    pub fn iter_mut(&mut self) -> impl Iterator<Item = (&K, &mut V)> {
+        self.items.iter_mut().map(|(k, v)| (&*k, v))
+    }
+
+    pub fn clear(&mut self) {
+        self.items.clear();
+    }
+
+    pub fn retain<F: FnMut(&K, &mut V) -> bool>(&mut self, mut f: F) {
+        self.items.retain_mut(|(k, v)| f(k, v));
+    }
+
+    /// `entry(k).or_insert(v)` and friends (the subset of the std entry API that makes sense
+    /// without a hasher)
+    pub fn entry(&mut self, key: K) -> Entry<'_, K, V> {
+        let mut found = None;
+        for (i, (k, _)) in self.items.iter().enumerate() {
+            if *k == key {
+                found = Some(i);
+                break;
+            }
+        }
+        match found {
+            Some(i) => Entry::Occupied(&mut self.items[i].1),
+            None => Entry::Vacant(self, key),
+        }
+    }
+
     /// Used by the map literal macro only: the keys of a literal are distinct by construction
     /// (checked in debug builds), so the duplicate search of `insert` - 54 x 53 / 2 string
     /// comparisons for the device table - is skipped.
     pub fn push_literal_entry(&mut self, key: K, value: V) {
         debug_assert!(self.items.iter().all(|(k, _)| *k != key));
         self.items.push((key, value));
+    }
+}
+
+pub enum Entry<'a, K, V> {
+    Occupied(&'a mut V),
+    Vacant(&'a mut HashMap<K, V>, K),
+}
+
+impl<'a, K: Eq, V> Entry<'a, K, V> {
+    pub fn or_insert(self, default: V) -> &'a mut V {
+        self.or_insert_with(|| default)
+    }
+
+    pub fn or_insert_with<F: FnOnce() -> V>(self, default: F) -> &'a mut V {
+        match self {
+            Entry::Occupied(v) => v,
+            Entry::Vacant(map, key) => {
+                map.items.push((key, default()));
+                let last = map.items.len() - 1;
+                &mut map.items[last].1
+            }
+        }
+    }
+
+    pub fn or_default(self) -> &'a mut V
+    where
+        V: Default,
+    {
+        self.or_insert_with(V::default)
+    }
+
+    pub fn and_modify<F: FnOnce(&mut V)>(self, f: F) -> Self {
+        match self {
+            Entry::Occupied(v) => {
+                f(v);
+                Entry::Occupied(v)
+            }
+            vacant => vacant,
+        }
+    }
+}
+
+impl<K: Eq, V> Default for HashMap<K, V> {
+    fn default() -> Self {
+        Self::new()
+    }
+}
+
+impl<K: Eq, V> Extend<(K, V)> for HashMap<K, V> {
+    fn extend<I: IntoIterator<Item = (K, V)>>(&mut self, iter: I) {
+        for (k, v) in iter {
+            let _ = self.insert(k, v);
+        }
+    }
+}
+
+impl<K: Eq, V> std::iter::FromIterator<(K, V)> for HashMap<K, V> {
+    fn from_iter<I: IntoIterator<Item = (K, V)>>(iter: I) -> Self {
+        let mut map = Self::new();
+        map.extend(iter);
+        map
+    }
+}
+
+impl<K, V> IntoIterator for HashMap<K, V> {
+    type Item = (K, V);
+    type IntoIter = std::vec::IntoIter<(K, V)>;
+    fn into_iter(self) -> Self::IntoIter {
+        self.items.into_iter()
+    }
+}
+
+impl<'a, K, V> IntoIterator for &'a HashMap<K, V> {
+    type Item = (&'a K, &'a V);
+    type IntoIter = std::iter::Map<std::slice::Iter<'a, (K, V)>, fn(&'a (K, V)) -> (&'a K, &'a V)>;
+    fn into_iter(self) -> Self::IntoIter {
+        fn split<'b, K, V>(kv: &'b (K, V)) -> (&'b K, &'b V) {
+            (&kv.0, &kv.1)
+        }
+        self.items.iter().map(split as fn(&'a (K, V)) -> (&'a K, &'a V))
+    }
+}
+
+impl<K: Eq + Borrow<Q>, Q: ?Sized + Eq, V> std::ops::Index<&Q> for HashMap<K, V> {
+    type Output = V;
+    fn index(&self, key: &Q) -> &V {
+        self.get(key).expect("no entry found for key")
     }
 }
 
@@ -161,10 +301,85 @@ impl<T: Ord> BTreeSet<T> {
         self.items.iter()
     }
 
+    pub fn remove<Q: ?Sized>(&mut self, value: &Q) -> bool
+    where
+        T: Borrow<Q>,
+        Q: Ord,
+    {
+        let mut found = None;
+        for (i, item) in self.items.iter().enumerate() {
+            if item.borrow() == value {
+                found = Some(i);
+                break;
+            }
+        }
+        match found {
+            Some(i) => {
+                self.items.remove(i);
+                true
+            }
+            None => false,
+        }
+    }
+
+    pub fn clear(&mut self) {
+        self.items.clear();
+    }
+
+    pub fn first(&self) -> Option<&T> {
+        self.items.first()
+    }
+
+    pub fn last(&self) -> Option<&T> {
+        self.items.last()
+    }
+
+    pub fn is_subset(&self, other: &Self) -> bool {
+        self.items.iter().all(|x| other.contains(x))
+    }
+
     /// Verification harnesses only: adopt a vector that is already sorted and duplicate-free
     /// (lets a harness build a set of symbolic elements without shifting insertions).
     pub fn from_sorted_vec(items: Vec<T>) -> Self {
         Self { items }
+    }
+}
+
+impl<T: Ord> Default for BTreeSet<T> {
+    fn default() -> Self {
+        Self::new()
+    }
+}
+
+impl<T: Ord> Extend<T> for BTreeSet<T> {
+    fn extend<I: IntoIterator<Item = T>>(&mut self, iter: I) {
+        for x in iter {
+            self.insert(x);
+        }
+    }
+}
+
+impl<T: Ord> std::iter::FromIterator<T> for BTreeSet<T> {
+    fn from_iter<I: IntoIterator<Item = T>>(iter: I) -> Self {
+        let mut set = Self::new();
+        set.extend(iter);
+        set
+    }
+}
+
+impl<T> IntoIterator for BTreeSet<T> {
+    type Item = T;
+    type IntoIter = std::vec::IntoIter<T>;
+    fn into_iter(self) -> Self::IntoIter {
+        self.items.into_iter()
+    }
+}
+
+impl<'a, T> IntoIterator for &'a BTreeSet<T> {
+    type Item = &'a T;
+    type IntoIter = std::slice::Iter<'a, T>;
+    fn into_iter(self) -> Self::IntoIter {
+        self.items.iter()
     }
 }
 
